@@ -457,20 +457,21 @@ def rule_tags(ctx):
     ctx.units["C01.encoder_control_bytes"] = {ctxn: {str(k): v for k, v in t.items()} for ctxn, t in table.items()}
     if None in table["list"] or None in table["bytes"]:
         ctx.undecided("C01.tags", where(ENC, "WriteEncoder", None), "data.append(<non-constant>)", "encoder emits a control byte that is not a constant")
-    # ---- decoder: list context
+    # ---- decoder: list context (semantic dispatch: the function is abstractly executed per header byte)
+    from ..bytedispatch import Dispatch
     rls = ctx.repo.method(DEC, "ReadDecoder", "readListSize")
     lvar = params_of(rls)[0]
-    ltab, lrest = dispatch_table(ctx, dec, rls, lvar)
+    ldisp = Dispatch(ctx.repo, dec, rls, lvar)
     w = where(DEC, "ReadDecoder.readListSize", rls.lineno)
     for k, N in sorted(table["list"].items(), key=lambda kv: str(kv[0])):
         if k is None:
             continue
-        br = [b for b in ltab if b[0] is not None and k in b[0]]
-        if not br or always_raises(br[-1][1]):
+        b = ldisp.run_value(k)
+        if not b.accepts:
             ctx.violate("C01.tags", w, "list header %s" % k, "encoder emits list header byte %s (+int%s) but readListSize has no accepting branch for it" % (k, N))
             continue
-        rN = first_reader(ctx, dec, br[-1][1])
-        ctx.check("C01.tags", rN == N, where(DEC, "ReadDecoder.readListSize", br[-1][2].lineno), "list header %s" % k,
+        rN = b.first_int()
+        ctx.check("C01.tags", rN == N, w, "list header %s" % k,
                   "list header %s is written with a %s-bit size but read with a %s-bit size" % (k, N, rN), "list header %s: int%s both ways" % (k, N))
     # isListTag agrees with the list headers the encoder emits
     ilt = dec.methods.get("isListTag")
@@ -501,29 +502,40 @@ def rule_tags(ctx):
         if var is None:
             ctx.undecided("C01.tags", where(DEC, "ReadDecoder." + fname, fn.lineno), fn, "content dispatch variable not found")
             continue
-        tab, rest = dispatch_table(ctx, dec, fn, var)
+        try:
+            disp = Dispatch(ctx.repo, dec, fn, var)
+        except LookupError as x:
+            ctx.undecided("C01.tags", where(DEC, "ReadDecoder." + fname, fn.lineno), fn, str(x))
+            continue
+        wh = where(DEC, "ReadDecoder." + fname, fn.lineno)
         for kind in kinds:
             for k, N in sorted(table[kind].items(), key=lambda kv: str(kv[0])):
                 if k is None:
                     continue
-                br = [b for b in tab if b[0] is not None and k in b[0]]
-                wh = where(DEC, "ReadDecoder." + fname, (br[-1][2].lineno if br else fn.lineno))
-                if not br:
-                    if fname == "nextTreeInternal" and kind != "bytes":
-                        # falls to the generic else: readString(read2) - acceptable only if readString handles it
-                        continue
-                    ctx.violate("C01.tags", wh, "control byte %s in %s" % (k, fname),
-                                "encoder emits control byte %s (%s) but %s has no branch for it" % (k, kind, fname))
+                b = disp.run_value(k)
+                if fname == "nextTreeInternal" and b.accepts and all(c.names[:1] == ["readString"] for c in b.cells if c.outcome == "ret"):
+                    # handed on to readString: decided in the readString context
+                    if kind == "bytes":
+                        ctx.violate("C01.tags", wh, "control byte %s in %s" % (k, fname),
+                                    "encoder emits control byte %s (%s) as node content but %s reads it as a string" % (k, kind, fname))
                     continue
-                if always_raises(br[-1][1]):
-                    ctx.violate("C01.tags", wh, "control byte %s in %s" % (k, fname), "branch for control byte %s only raises" % k)
+                if not b.accepts:
+                    ctx.violate("C01.tags", wh, "control byte %s in %s" % (k, fname),
+                                "encoder emits control byte %s (%s) but %s has no accepting branch for it" % (k, kind, fname) if not b.cells or not any(c.trace for c in b.cells)
+                                else "branch for control byte %s only raises" % k)
                     continue
                 if kind == "jid":
-                    nrs = sum(1 for s in br[-1][1] for n in walk_no_nested(s) if isinstance(n, ast.Call) and is_self_attr(n.func, "readString"))
+                    nrs = b.count("readString")
                     ctx.check("C01.tags", nrs == 2, wh, "control byte %s in %s" % (k, fname),
                               "a JID pair is written as two strings but %d string(s) are read back" % nrs, "JID pair: two strings both ways")
                     continue
-                rN = first_reader(ctx, dec, br[-1][1])
+                rN = b.first_int()
+                if kind == "packed" and rN is None and b.count("readPacked8") == 1:
+                    # the packed reader takes the header byte itself (C01.unpack decides what it does with it)
+                    pk = [t for t in b.calls("readPacked8")]
+                    ctx.check("C01.tags", pk[0][1][:1] == [str(k)] or pk[0][1][:1] == [repr(k)], wh, "control byte %s in %s" % (k, fname),
+                              "packed kind %s is handed to the packed reader as %s" % (k, pk[0][1][:1]), "control byte %s: packed reader called with the kind" % k)
+                    continue
                 ctx.check("C01.tags", rN == N, wh, "control byte %s in %s" % (k, fname),
                           "control byte %s is followed by a %s-bit length when written but a %s-bit length is read in %s" % (k, N, rN, fname),
                           "control byte %s: int%s both ways" % (k, N))
@@ -542,89 +554,127 @@ def always_raises(stmts):
 
 
 # ------------------------------------------------------------------ C01.dbl
+def secondary_size(ctx):
+    """number of entries of the secondary dictionary (the finite domain of double-byte tokens)"""
+    try:
+        td = ctx.repo.cls(TOK, "TokenDictionary")
+        init = td.methods["__init__"]
+        ev = Evaluator(ctx.repo, td.module, td)
+        for n in ast.walk(init):
+            if isinstance(n, ast.Assign) and unparse(n.targets[0]) == "self.secondaryDictionary":
+                a = alts(ev.ev(n.value))
+                if a and len(a) == 1:
+                    return len(a[0])
+    except Exception:
+        pass
+    return None
+
+
+def dbl_encode(repo, enc, ws, index):
+    """abstract execution of writeString for a string the dictionary finds at (index, secondary=True):
+    -> ('bytes', [ints]) | ('raise', text) | ('unknown', why)"""
+    from ..absint import Interp, Obj, _Raise, Budget, NeedAtom
+    def get_index(it, recv, args, kwargs, env, depth, e):
+        return ("c", (index, True))
+    it = Interp(repo, {}, {}, hooks={"ext:tokdict.getIndex": get_index})
+    o = Obj(enc)
+    o.fields["tokenDictionary"] = ("ext", "tokdict", [])
+    out = ("list", [])
+    params = params_of(ws)
+    args = [("ext", "tag", [])] + [out if p == "data" else ("c", False) for p in params[1:]]
+    try:
+        it.call_function(ws, enc, ("obj", o), args, {}, depth=0)
+    except _Raise as r:
+        return ("raise", r.text)
+    except (NeedAtom, Budget) as x:
+        return ("unknown", "undecided test %s" % (x,))
+    if all(v[0] == "c" and isinstance(v[1], int) for v in out[1]):
+        return ("bytes", [v[1] for v in out[1]])
+    return ("unknown", "non-constant output")
+
+
+def dbl_decode(repo, dec, rs, data_bytes):
+    """abstract execution of readString(first byte, rest) -> ('lookup', index, secondary) | ('raise', t) | ('unknown', why)"""
+    from ..absint import Interp, Obj, _Raise, Budget, NeedAtom
+    seen = []
+
+    def get_token(it, recv, args, kwargs, env, depth, e):
+        a = [x[1] if x[0] == "c" else None for x in args]
+        sec = a[1] if len(a) > 1 else (kwargs.get("secondary", ("c", False))[1] if kwargs.get("secondary", ("c", False))[0] == "c" else None)
+        seen.append((a[0] if a else None, sec))
+        return ("c", "<token>")
+    it = Interp(repo, {}, {}, hooks={"ext:tokdict.getToken": get_token})
+    o = Obj(dec)
+    o.fields["tokenDictionary"] = ("ext", "tokdict", [])
+    data = ("list", [("c", b) for b in data_bytes[1:]])
+    try:
+        v = it.call_function(rs, dec, ("obj", o), [("c", data_bytes[0]), data], {}, depth=0)
+    except _Raise as r:
+        return ("raise", r.text)
+    except (NeedAtom, Budget) as x:
+        return ("unknown", "undecided test %s" % (x,))
+    if len(seen) == 1 and v == ("c", "<token>") and not data[1]:
+        return ("lookup", seen[0][0], seen[0][1])
+    if not seen:
+        return ("nolookup", show_val(v))
+    return ("unknown", "lookups %s" % seen)
+
+
+def show_val(v):
+    from ..absint import show
+    return show(v)[:60]
+
+
 def rule_dbl(ctx):
+    """double-byte (secondary dictionary) tokens over their whole finite domain: for every index i the encoder's
+    writeString is abstractly executed with the dictionary answering (i, secondary) and the two bytes it emits are
+    handed to the decoder's readString, which must look up exactly (i, secondary) - whatever arithmetic either side
+    uses (//, divmod, shifts, tables)"""
     enc = ctx.repo.cls(ENC, "WriteEncoder")
     dec = ctx.repo.cls(DEC, "ReadDecoder")
     ws = ctx.repo.method(ENC, "WriteEncoder", "writeString")
-    cev = Evaluator(ctx.repo, enc.module, enc)
-    w = where(ENC, "WriteEncoder.writeString", ws.lineno)
-    # quotient = index // M ; chain quotient == q -> token T_q ; second byte index % M2
-    M = M2 = None
-    qvar = None
-    for n in ast.walk(ws):
-        if isinstance(n, ast.Assign) and isinstance(n.value, ast.BinOp) and isinstance(n.value.op, ast.FloorDiv) and isinstance(n.targets[0], ast.Name):
-            a = alts(cev.ev(n.value.right))
-            if a:
-                M, qvar = a[0], n.targets[0].id
-        if isinstance(n, ast.Call) and is_self_attr(n.func, "writeToken") and n.args and isinstance(n.args[0], ast.BinOp) and isinstance(n.args[0].op, ast.Mod):
-            a = alts(cev.ev(n.args[0].right))
-            if a:
-                M2 = a[0]
-    qmap = {}
-    if qvar:
-        for n in ast.walk(ws):
-            if isinstance(n, ast.If):
-                vals = test_values(ctx, enc, n.test, qvar, range(0, 8)) if mentions(n.test, qvar) else None
-                if vals and len(vals) == 1:
-                    for s in n.body:
-                        if isinstance(s, ast.Assign) and isinstance(s.value, ast.Constant) and isinstance(s.value.value, int):
-                            qmap[list(vals)[0]] = s.value.value
-    if not qmap and qvar:
-        # arithmetic form: double_byte_token = BASE + quotient
-        for n in ast.walk(ws):
-            if isinstance(n, ast.Assign) and isinstance(n.value, ast.BinOp):
-                l = linear.lin(n.value, cev)
-                if l and l.get(qvar) == 1 and set(l) <= {qvar, 1}:
-                    qmap = {q: l.get(1, 0) + q for q in range(4)}
-    if M is None or not qmap:
-        ctx.undecided("C01.dbl", w, ws, "double-byte token arithmetic (index // M -> token, index % M) not found in writeString")
-        return
-    bases = {t - q for q, t in qmap.items()}
-    ctx.check("C01.dbl", len(bases) == 1 and M == M2 and sorted(qmap) == list(range(len(qmap))), w,
-              "index // %s -> %s ; index %% %s" % (M, qmap, M2),
-              "quotient->token map is not BASE+q with one BASE, or divisor %s differs from modulus %s" % (M, M2), "token = %s + index // %s, second byte = index %% %s" % (sorted(bases), M, M2))
-    BASE = sorted(bases)[0]
-    # decoder: branch on BASE..BASE+n -> getTokenDouble(token - BASE', readInt8) ; pos = n2 + n * M'
     rs = ctx.repo.method(DEC, "ReadDecoder", "readString")
-    dev = Evaluator(ctx.repo, dec.module, dec)
-    svar = params_of(rs)[0]
-    tab, _ = dispatch_table(ctx, dec, rs, svar)
+    w = where(ENC, "WriteEncoder.writeString", ws.lineno)
     wr = where(DEC, "ReadDecoder.readString", rs.lineno)
-    want = set(qmap.values())
-    br = [b for b in tab if b[0] is not None and b[0] == want]
-    if not br:
-        cover = [b for b in tab if b[0] is not None and want <= b[0]]
-        ctx.violate("C01.dbl", wr, "double-byte tokens %s" % sorted(want),
-                    "encoder emits double-byte prefixes %s but readString dispatches them %s" % (sorted(want), "together with other bytes " + str(sorted(cover[0][0]))[:60] if cover else "nowhere"))
+    n = secondary_size(ctx)
+    if n is None:
+        ctx.undecided("C01.dbl", w, ws, "size of the secondary dictionary not evaluated")
         return
-    call = None
-    for s in br[0][1]:
-        for n in walk_no_nested(s):
-            if isinstance(n, ast.Call) and is_self_attr(n.func, "getTokenDouble"):
-                call = n
-    if call is None or len(call.args) != 2:
-        ctx.undecided("C01.dbl", wr, br[0][2], "getTokenDouble(token - BASE, second byte) call not found")
+    ctx.units["C01.secondary_entries"] = n
+    bad_enc, bad_dec, unknown, pairs = [], [], [], {}
+    for i in range(n):
+        r = dbl_encode(ctx.repo, enc, ws, i)
+        if r[0] == "unknown":
+            unknown.append("index %d: %s" % (i, r[1]))
+            break
+        if r[0] == "raise":
+            bad_enc.append("index %d is refused (%s)" % (i, r[1][:50]))
+            continue
+        if len(r[1]) != 2:
+            bad_enc.append("index %d is written as %d byte(s) %s" % (i, len(r[1]), r[1][:4]))
+            continue
+        if tuple(r[1]) in pairs:
+            bad_enc.append("indices %d and %d are both written as %s" % (pairs[tuple(r[1])], i, r[1]))
+            continue
+        pairs[tuple(r[1])] = i
+        d = dbl_decode(ctx.repo, dec, rs, r[1])
+        if d[0] == "unknown":
+            unknown.append("bytes %s: %s" % (r[1], d[1]))
+            break
+        if d != ("lookup", i, True):
+            bad_dec.append("index %d is written as %s and read back as %s" % (i, r[1], d))
+    if unknown:
+        ctx.undecided("C01.dbl", w, ws, "double-byte tokens could not be evaluated: " + unknown[0])
         return
-    l = linear.lin(call.args[0], dev)
-    okbase = l is not None and l.get(svar) == 1 and l.get(1, 0) == -BASE and set(l) <= {svar, 1}
-    second = isinstance(call.args[1], ast.Call) and is_self_attr(call.args[1].func, "readInt8")
-    gtd = ctx.repo.method(DEC, "ReadDecoder", "getTokenDouble")
-    p1, p2 = params_of(gtd)
-    pos = None
-    for n in ast.walk(gtd):
-        if isinstance(n, ast.Call) and isinstance(n.func, ast.Attribute) and n.func.attr == "getToken" and n.args:
-            a0 = n.args[0]
-            if isinstance(a0, ast.Name):
-                for m in ast.walk(gtd):
-                    if isinstance(m, ast.Assign) and isinstance(m.targets[0], ast.Name) and m.targets[0].id == a0.id:
-                        pos = linear.lin(m.value, dev)
-            else:
-                pos = linear.lin(a0, dev)
-            sec = len(n.args) > 1 and alts(dev.ev(n.args[1])) == [True]
-    okpos = pos is not None and linear.equal(pos, {p1: M, p2: 1})
-    ctx.check("C01.dbl", okbase and second and okpos and sec, wr, call,
-              "decoder position must be (token - %d) * %d + next byte looked up in the secondary table; found offset %s, position %s" % (BASE, M, l, pos),
-              "position = (token - %d) * %d + next byte (secondary)" % (BASE, M))
+    prefixes = sorted({p[0] for p in pairs})
+    ctx.units["C01.double_byte_prefixes"] = prefixes
+    ctx.check("C01.dbl", not bad_enc, w, "secondary dictionary indices 0..%d -> two bytes" % (n - 1),
+              "; ".join(bad_enc[:3]) + (" (+%d more)" % (len(bad_enc) - 3) if len(bad_enc) > 3 else ""),
+              "every secondary index is written as its own (prefix, offset) pair; prefixes %s" % prefixes)
+    ctx.check("C01.dbl", not bad_dec, wr, "two bytes -> secondary dictionary index (all %d indices)" % n,
+              "; ".join(bad_dec[:3]) + (" (+%d more)" % (len(bad_dec) - 3) if len(bad_dec) > 3 else ""),
+              "readString looks up exactly the index the encoder wrote, in the secondary table")
+    return prefixes
 
 
 # ------------------------------------------------------------------ C01.pack
